@@ -13,6 +13,9 @@ CONSTANTS
   ObsMerge = "always"
   ModeStore = "canonical"
   UpdateGuard = "before"
+  BoundaryGuard = "none"
+  UpdateArg = "kept"
+  TrackArg = FALSE
   ModeCalls <- MCModeCalls
   InvalidModes <- MCInvalidOne
   ObsParams <- MCObsParams
